@@ -4,7 +4,7 @@
 cd /verif
 ids="$@"; [ -n "$ids" ] || ids=$(ls seeded)
 for k in $ids; do
-  prop=$(python3 -c "import json;d=json.load(open('seeded/$k/meta.json'));print('SKIP' if d.get('superseded') else d['breaks_property'])")
+  prop=$(python3 -c "import json;d=json.load(open('seeded/$k/meta.json'));print('SKIP' if (d.get('superseded') or d.get('undetected')) else d['breaks_property'])")
   [ "$prop" = SKIP ] && { echo "SKIPPED  $k (superseded, see meta.json)"; continue; }
   out=$(tools/try_seeded.sh seeded/$k/patch.diff $prop 2>&1 | tail -1)
   case "$out" in *"exit=1"*) echo "DETECTED $k $prop";; *) echo "MISSED   $k $prop :: $out";; esac
